@@ -45,7 +45,13 @@ var (
 		"NOERROR;TXT;hello", "NOERROR;MX;10 mail.example.net", "NOERROR;CNAME;new.example.net", "noerror;a;1.2.3.4",
 		// record types without a value parser: type kept, value nil (an exception with such a value disables
 		// only rewrites of that type, it is not the empty value)
-		"NOERROR;NS;ns1.example.net", "NOERROR;NS;", "noerror;caa;0 issue ca.example.net", "NOERROR;SOA;x", "NOERROR;DNAME;new.example.net"}
+		"NOERROR;NS;ns1.example.net", "NOERROR;NS;", "noerror;caa;0 issue ca.example.net", "NOERROR;SOA;x", "NOERROR;DNAME;new.example.net",
+		// N2: near-twins of the values above, differing in ONE component (letter case of the new CNAME / exchange, preference,
+		// SRV priority / weight / port, one SVCB parameter)
+		"New.example.net", "NEW.EXAMPLE.NET", "NOERROR;CNAME;new.Example.net", "NOERROR;MX;10 Mail.example.net", "NOERROR;MX;266 mail.example.net",
+		"NOERROR;TXT;Hello", "NOERROR;SRV;1 2 80 s.example.net", "NOERROR;SRV;257 2 80 s.example.net", "NOERROR;SRV;1 3 80 s.example.net",
+		"NOERROR;SRV;1 2 8080 s.example.net", "NOERROR;HTTPS;1 . alpn=h3", "NOERROR;HTTPS;1 . alpn=h2", "NOERROR;HTTPS;1 . alpn=h3 port=443",
+		"NOERROR;HTTPS;2 . alpn=h3", "NOERROR;SVCB;1 . alpn=h3", "NOERROR;PTR;new.example.net", "NOERROR;PTR;new.example.net.", "2001:db8::1", "2001:db8::2"}
 )
 
 func i3Mods(r *rng, pool []string, maxN int) string {
